@@ -189,10 +189,13 @@ def run_variant(case, policy, max_iter=None, max_nodes=None):
     try:
         with seams.install_clock(clock), budget.steps(STEP_LIMIT):
             fn = mod.solve_cg if solver == "cg" else mod.solve_bp
+            # every variant of a case gets the same demand / size / column objects (a caller re-running one instance)
+            inp = case.setdefault("_inputs", {"demands": list(case["demands"]), "sizes": list(case.get("sizes", [])),
+                                              "initial": [tuple(c) for c in case.get("initial", [])]})
             if case["mode"] == "stock":
-                res = fn(list(case["demands"]), roll_width=case["W"], piece_sizes=list(case["sizes"]), **kw)
+                res = fn(inp["demands"], roll_width=case["W"], piece_sizes=inp["sizes"], **kw)
             else:
-                res = fn(list(case["demands"]), pricing_fn=make_peer(case, stats, clock), initial_columns=[tuple(c) for c in case["initial"]], **kw)
+                res = fn(inp["demands"], pricing_fn=make_peer(case, stats, clock), initial_columns=inp["initial"], **kw)
     except budget.StepBudgetExceeded:
         skipped = True
     except SOLVER_ERRORS as e:
@@ -256,6 +259,7 @@ def judge(case, v, o: Outcome, label, opt, faulted, fault_kind):
 
 
 def execute(case) -> Outcome:
+    case = dict(case)
     o = Outcome()
     budget.install(["solvor.cg", "solvor.bp", "solvor.utils.pricing"])
     if case["mode"] == "stock":
